@@ -1,2 +1,9 @@
 #!/bin/sh
-exit 0
+# Offline setup: compile the TLC override of BigNat and build the harness against /repo.
+set -e
+cd "$(dirname "$0")"
+mkdir -p tlc/classes work evidence
+javac -cp /opt/veriftools/tla/tla2tools.jar -d tlc/classes tlc/BigNat.java
+[ -f harness/Cargo.lock ] || cp /repo/Cargo.lock harness/Cargo.lock
+(cd harness && CARGO_NET_OFFLINE=true cargo build --release --offline)
+echo setup ok
